@@ -438,6 +438,7 @@ type GhostUpdate struct {
 }
 
 type LoopContract struct {
+	ReturnEnsures []Clause // must hold at every return that is dominated by the loop header (not visible to callers)
 	Updates    []GhostUpdate
 	Invariants []Clause
 	Modifies   []Clause
@@ -788,6 +789,8 @@ func (cs *ContractSet) ParseContractFile(path, pkgPath string) error {
 				switch sub {
 				case "invariant":
 					lc.Invariants = append(lc.Invariants, c)
+				case "return-ensures":
+					lc.ReturnEnsures = append(lc.ReturnEnsures, c)
 				case "modifies":
 					lc.Modifies = append(lc.Modifies, c)
 				case "decreases":
